@@ -23,6 +23,8 @@ TEXT_GRAMMARS = {
     # joins/gathers in which BOTH the separator and the element can match empty: an iteration that consumes nothing must end the repetition (or fail), never loop
     'nullable_sep_join': "start: /,?/%{ /a?/ } $ ;\n",
     'nullable_sep_gather_plus': "start: ([',']).{ ['a'] }+ 'b' ;\n",
+    # a rule name that is defined nowhere, used only as a separator (the compile-time reference check does not look at separators): still a TatSu failure at parse time
+    'undefined_separator': "start: comma%{'a'}+ ['b'] $ | nosuch.{'b'} $ ;\n",
     'nullable_sep_rule': "start: sep%{ item }+ $ ;\nsep: [','] ;\nitem: {'a'} ;\n",
 }
 CORE_QUICK = ['seq_eof', 'choice_order', 'join_plus', 'lookaheads', 'named_defaults', 'rule_list_nested', 'skipto', 'leftrec_basic', 'pattern_no_ws', 'constant']
